@@ -2,7 +2,9 @@
    Decoder level here; the driver-level statement (no event makes the driver panic) is c11_driver_never_panics. *)
 From Coq Require Import List NArith Lia Bool Arith.
 From Coq.Strings Require Import Byte.
-From L3 Require Import Ber BerFixed Utf8 Frame FrameFixed.
+From RecordUpdate Require Import RecordUpdate.
+From Coq Require Import ZArith.
+From L3 Require Import Ber BerFixed Utf8 Frame FrameFixed Msgid Conn ConnNoWrap.
 Import ListNotations.
 Open Scope N_scope.
 
@@ -27,7 +29,13 @@ Theorem c11_repairs_reject_nothing_valid : forall m fuel i t r,
   parse_tag fuel i = POk (t, r) -> (tdepth t <= S m)%nat -> parse_tag' (lim true m) 0 fuel i = POk (t, r).
 Proof. exact BerFixed.c11_repairs_reject_nothing_valid. Qed.
 
+(* driver level (connection model with the F5 repairs): no event - in particular no response, whatever its kind and id - makes the
+   driver panic; the only way into the panicked state is the artificial event that says so *)
+Theorem c11_driver_never_panics : forall (s : st) (e : ev), fix5 (fx s) = true -> drv s <> EndedPanic -> e <> DrvEnd EndedPanic -> drv (step s e) <> EndedPanic.
+Proof. exact ConnNoWrap.c11_driver_never_panics. Qed.
+
 Print Assumptions c11_decode_no_panic.
+Print Assumptions c11_driver_never_panics.
 Print Assumptions c11_decode_no_wedge.
 Print Assumptions c11_depth_bounded.
 Print Assumptions c11_repairs_reject_nothing_valid.
